@@ -110,3 +110,25 @@ func VerifModHashState(s *ServantProxy) ([]endpoint.Endpoint, []int) {
 	}
 	return nil, nil
 }
+
+// VerifRotation returns the hosts each of the manager's three selectors routes over.
+func VerifRotation(s *ServantProxy) (rr, con, mod []string) {
+	em, ok := s.manager.(*endpointManager)
+	if !ok {
+		return
+	}
+	if em.activeEpRoundRobin != nil {
+		rr = em.activeEpRoundRobin.VerifHosts()
+	}
+	if em.activeEpConHash != nil {
+		con = em.activeEpConHash.VerifHosts()
+	}
+	if em.activeEpModHash != nil {
+		l, _ := em.activeEpModHash.VerifEndpoints()
+		for _, e := range l {
+			mod = append(mod, e.Host)
+		}
+		sort.Strings(mod)
+	}
+	return
+}
